@@ -25,7 +25,7 @@ from .. import tlc, engine
 from ..common import Report, pmap, harness_errors, rng, setup_repo, canon
 
 PROP = 'C05'
-KINDS = ['src', 'map', 'filter', 'del', 'obs', 'sort', 'fin']
+KINDS = ['src', 'map', 'filter', 'del', 'obs', 'sort', 'fin', 'dup', 'cat']
 
 
 def model(rep, t):
@@ -36,6 +36,13 @@ def model(rep, t):
         invariants=['NoDeadlock', 'ObserverComplete', 'AllObserversCommit', 'FinalizerOnce', 'FinalizerAtEnd', 'LazyEqualsEager'])
     res = tlc.run_tlc('Engine', cfg, allow_violation=False, timeout=6000, coverage=True)
     rep.add_tlc(res, 'Engine: ObserverComplete, AllObserversCommit, FinalizerOnce, FinalizerAtEnd')
+    cfg = tlc.write_cfg(os.path.join(wd, 'mcd.cfg'), constants={
+        'MaxLen': 3, 'Sample': 2, 'Ahead': 2, 'SwallowCast': 'FALSE', 'SrcRows': '<- SrcRowsSmall', 'DelDrains': '<- DelSkips',
+        'Kinds': '{"src", "obs", "del"}'}, invariants=['ObserverComplete'])
+    res = tlc.run_tlc('Engine', cfg, timeout=3000)
+    if res.violated != 'ObserverComplete':
+        raise tlc.MachineryError('vacuity: with a delete_resource that does not drain, Engine.tla must violate ObserverComplete (src, obs, del)')
+    rep.notes['non_vacuity_delete_must_drain'] = 'with DelDrains <- DelSkips TLC refutes ObserverComplete on (src, obs, del), as expected'
 
 
 def trace_items(r, t):
